@@ -56,10 +56,12 @@ def extract():
 # ------------------------------------------------------------------------------------------------
 _WATCH_PREFIX = ("os.", "socket.", "subprocess.", "ctypes.", "pty.", "shutil.", "tempfile.", "glob.", "pickle.", "sqlite3.",
                  "urllib.", "http.", "ftplib.", "smtplib.", "webbrowser.", "mmap.", "fcntl.", "signal.", "syslog.", "cpython.run")
-_WATCH_EXACT = {"import", "exec", "compile", "open", "builtins.input", "code.__new__", "function.__new__"}
+_WATCH_EXACT = {"import", "exec", "compile", "open", "builtins.input", "builtins.input/result", "builtins.breakpoint", "code.__new__",
+                "function.__new__"}
 _BLOCK_PREFIX = ("socket.", "subprocess.", "os.system", "os.exec", "os.posix_spawn", "os.spawn", "os.fork", "os.kill",
                  "os.remove", "os.rename", "os.rmdir", "os.mkdir", "os.chmod", "os.chown", "os.truncate", "os.link", "os.symlink",
-                 "pty.", "shutil.", "ctypes.", "webbrowser.", "urllib.", "http.", "ftplib.", "smtplib.")
+                 "pty.", "shutil.", "ctypes.", "webbrowser.", "urllib.", "http.", "ftplib.", "smtplib.", "builtins.input",
+                 "builtins.breakpoint")
 
 
 class Blocked(BaseException):
@@ -486,7 +488,7 @@ def tag_in_closed_set(R, ser, tag, d):
         if tag.startswith(ns):
             t = vars(R.builtins).get(tag[len(ns):])
             return isinstance(t, type) and issubclass(t, BaseException)
-    if tag.startswith("sqlite3.") and tag.endswith("Error"):
+    if tag.startswith("sqlite3."):      # the statement allows "exception classes taken from sqlite3" (the code: only *Error)
         t = vars(R.sqlite3).get(tag[len("sqlite3."):])
         return isinstance(t, type) and issubclass(t, BaseException)
     return False
@@ -731,7 +733,7 @@ def _run_cases(ctx, R, cases, do_model):
 
 
 def correspondence(ctx):
-    _run(ctx, "corr", ctx.n(6000, 150000), True)
+    _run(ctx, "corr", ctx.n(6000, 300000), True)
 
 
 def oracle(ctx):
